@@ -100,6 +100,8 @@ structure InvOps (I : VF → Prop) : Prop where
   vdKeep : ∀ s, I s → ∀ v, (s.vd.isSome = true → v.isSome = true) → ∀ o p, I { s with os := o, vd := v, pcm_offset := p }
   decodeClear : ∀ s, I s → I (decodeClear.run s).2
   makeReady : ∀ s, I s → I (makeDecodeReady.run s).2
+  restart : ∀ s, I s → I (restartDec.run s).2
+  select : ∀ s, I s → ∀ link, I (selectLinkF link s)
   link : ∀ s, I s → ∀ serial link, linkOf s serial = some link → ∀ o,
     I { s with current_serialno := serial, current_link := (link : Int), os := o, ready := STREAMSET }
   take : ∀ s, I s → ∀ n, I (readTake s n).2
@@ -420,6 +422,131 @@ theorem inv_pcmSeek (ph : Phys) (f : Int → M Int) (pos : Int) (s : VF) (hs : I
     · exact h2
     · exact pres_pcmSeekTail ops ph pos _ h2
 
+theorem pres_rawLoop (ph : Phys) : ∀ (fuel : Nat) (work : OStream) (lb acc : Int) (lf ff fs : Bool),
+    Pres I (rawSeek.loop ph fuel work lb acc lf ff fs) := by
+  intro fuel
+  induction fuel with
+  | zero => intro work lb acc lf ff fs; unfold rawSeek.loop; exact pres_modify _ (fun v hv => ops.pcmoff v hv _)
+  | succ fuel ih =>
+      intro work lb acc lf ff fs
+      unfold rawSeek.loop
+      apply pres_get_bind
+      intro s hs
+      simp only []
+      refine (?_ : Pres I _) s hs
+      apply pres_ite
+      · apply pres_bind
+        · apply pres_ite
+          · exact pres_bind _ _ (pres_modify _ (fun v hv => ops.os v hv _)) (fun _ => pres_pure _)
+          · apply pres_ite
+            · exact pres_bind _ _ (pres_modify _ (fun v hv => ops.os v hv _)) (fun _ => pres_pure _)
+            · exact pres_pure _
+        · intro x
+          apply pres_ite
+          · exact pres_bind _ _ (pres_modify _ (fun v hv => ops.pcmoff v hv _)) (fun _ => pres_pure _)
+          · exact ih _ _ _ _ _ _
+      · apply pres_ite
+        · exact pres_bind _ _ (pres_modify _ (fun v hv => ops.pcmoff v hv _)) (fun _ => pres_pure _)
+        · apply pres_bind _ _ (pres_getNextPage ops ph (-1))
+          intro x
+          apply pres_ite
+          · exact pres_bind _ _ (pres_modify _ (fun v hv => ops.pcmoff v hv _)) (fun _ => pres_pure _)
+          · apply pres_get_bind
+            intro s1 hs1
+            refine (?_ : Pres I _) s1 hs1
+            apply pres_bind
+            · apply pres_ite
+              · exact pres_decodeClear ops
+              · exact pres_pure _
+            · intro _
+              apply pres_get_bind
+              intro s2 hs2
+              by_cases h2 : s2.ready < STREAMSET
+              · rw [if_pos h2]
+                cases hl : linkOf s2 x.2.serial with
+                | none => exact ih _ _ _ _ _ _ s2 hs2
+                | some link =>
+                    simp only []
+                    rw [run_modify_bind]
+                    apply ih
+                    exact ops.link s2 hs2 x.2.serial link hl _
+              · rw [if_neg h2]
+                exact pres_bind _ _ (pres_modify _ (fun v hv => ops.os v hv _)) (fun _ => ih _ _ _ _ _ _) s2 hs2
+
+theorem pres_rawSeek (ph : Phys) (pos : Int) : Pres I (rawSeek ph pos) := by
+  unfold rawSeek
+  apply pres_get_bind
+  intro s hs
+  refine (?_ : Pres I _) s hs
+  have hjp : Pres I (do
+      modify fun vf => { vf with pcm_offset := -1, os := vf.os.resetSerial vf.current_serialno }
+      restartDec
+      let _ ← seekHelper pos
+      let vf0 ← get
+      let work0 : OStream := { serial := vf0.current_serialno }
+      rawSeek.loop ph (2 * ph.work) work0 0 0 false false false
+      return 0 : M Int) := by
+    apply pres_bind _ _ (pres_modify _ (fun v hv => (ops.os _ (ops.pcmoff v hv (-1)) (v.os.resetSerial v.current_serialno) : I { v with pcm_offset := -1, os := v.os.resetSerial v.current_serialno })))
+    intro _
+    apply pres_bind _ _ (fun v hv => ops.restart v hv)
+    intro _
+    apply pres_bind _ _ (pres_bind _ _ (pres_setCur ops _) (fun _ => pres_pure _))
+    intro _
+    apply pres_get_bind
+    intro v hv
+    exact pres_bind _ _ (pres_rawLoop ops ph _ _ _ _ _ _ _) (fun _ => pres_pure _) v hv
+  apply pres_ite
+  · exact pres_pure _
+  · apply pres_ite
+    · exact pres_pure _
+    · apply pres_ite
+      · exact pres_pure _
+      · simp only []
+        apply pres_ite
+        · apply pres_ite
+          · exact pres_bind _ _ (pres_decodeClear ops) (fun _ => hjp)
+          · exact hjp
+        · exact hjp
+
+/-- with the real raw seek as fall-back every plan keeps the predicate -/
+theorem inv_execPlan_raw (ph : Phys) (p : SeekPlan) (s : VF) (hs : I s) : I ((execPlan (rawSeek ph) p).run s).2 := by
+  cases p with
+  | fail rc c => exact ops.exec _ _ s hs (by intro l c o r h; cases h)
+  | failSel l c o rc => exact ops.exec _ _ s hs (by intro l c o r h; cases h)
+  | land l c o po => exact ops.exec _ _ s hs (by intro l c o r h; cases h)
+  | viaRaw l c o r =>
+      unfold execPlan
+      refine (?_ : Pres I _) s hs
+      apply pres_bind _ _ (pres_setCur ops _)
+      intro _
+      apply pres_bind _ _ (pres_modify _ (fun v hv => ops.select v hv l))
+      intro _
+      apply pres_bind _ _ (pres_modify _ (fun v hv => (ops.pcmoff _ (ops.os v hv o) (-1) : I { v with os := o, pcm_offset := -1 })))
+      intro _
+      exact pres_rawSeek ops ph r
+
+/-- `ov_pcm_seek_page` and `ov_pcm_seek` as the library runs them (raw seek as fall-back) keep the predicate, whatever the plan -/
+theorem inv_pcmSeekPage_raw (ph : Phys) (pos : Int) (s : VF) (hs : I s) : I ((pcmSeekPage ph (rawSeek ph) pos).run s).2 := by
+  unfold pcmSeekPage
+  rw [run_get_bind']
+  split
+  · exact hs
+  · split
+    · exact hs
+    · split
+      · exact hs
+      · exact inv_execPlan_raw ops ph _ s hs
+
+theorem inv_pcmSeek_raw (ph : Phys) (pos : Int) (s : VF) (hs : I s) : I ((pcmSeek ph (rawSeek ph) pos).run s).2 := by
+  rw [pcmSeek_run]
+  have h1 := inv_pcmSeekPage_raw ops ph pos s hs
+  split
+  · exact h1
+  · have h2 := ops.makeReady _ h1
+    split
+    · exact h2
+    · exact pres_pcmSeekTail ops ph pos _ h2
+
 end generic
 
 theorem linkOf_spec (vf : VF) (serial : Int) (link : Nat) (h : linkOf vf serial = some link) : vf.serialnos[link]! = serial := by
@@ -482,6 +609,17 @@ theorem sinvOps : InvOps SInv where
   vdKeep := fun _ h _ hv _ _ => ⟨h.1, ⟨h.2.1.1, fun hr => hv (h.2.1.2.1 hr), h.2.1.2.2⟩, h.2.2⟩
   decodeClear := fun s h => ⟨h.1, wf_decodeClear s, by show OPENED ≤ OPENED; decide⟩
   makeReady := fun s h => ⟨by rw [makeDecodeReady_seekable]; exact h.1, wf_makeDecodeReady s h.2.1, makeDecodeReady_ready s h.2.2⟩
+  select := fun s h link => ⟨by unfold selectLinkF; split <;> exact h.1, wf_selectLinkF link s h.2.1, by
+    unfold selectLinkF
+    split
+    · show OPENED ≤ STREAMSET; decide
+    · exact h.2.2⟩
+  restart := fun s h => ⟨h.1, ⟨h.2.1.1, fun hr => by
+    have := h.2.1.2.1 hr
+    show (s.vd.map (fun _ => freshDec s)).isSome = true
+    cases hv : s.vd with
+    | none => rw [hv] at this; exact absurd this (by decide)
+    | some d => rfl, h.2.1.2.2⟩, h.2.2⟩
   link := fun s h serial link hl o => by
     have hser := linkOf_spec s serial link hl
     refine ⟨h.1, ⟨?_, ?_, ?_⟩, ?_⟩
@@ -530,22 +668,27 @@ theorem jOps (s0 : VF) : InvOps (J s0) where
   vdKeep := fun s h v hv o p => ⟨sinvOps.vdKeep s h.1 v hv o p, sameFile_trans h.2 ⟨rfl, rfl, rfl, rfl, rfl, rfl, rfl, rfl⟩⟩
   decodeClear := fun s h => ⟨sinvOps.decodeClear s h.1, sameFile_trans h.2 ⟨rfl, rfl, rfl, rfl, rfl, rfl, rfl, rfl⟩⟩
   makeReady := fun s h => ⟨sinvOps.makeReady s h.1, sameFile_trans h.2 (same_makeDecodeReady s)⟩
+  restart := fun s h => ⟨sinvOps.restart s h.1, sameFile_trans h.2 ⟨rfl, rfl, rfl, rfl, rfl, rfl, rfl, rfl⟩⟩
+  select := fun s h link => ⟨sinvOps.select s h.1 link, sameFile_trans h.2 (by unfold selectLinkF; split <;> exact ⟨rfl, rfl, rfl, rfl, rfl, rfl, rfl, rfl⟩)⟩
   link := fun s h serial link hl o => ⟨sinvOps.link s h.1 serial link hl o, sameFile_trans h.2 ⟨rfl, rfl, rfl, rfl, rfl, rfl, rfl, rfl⟩⟩
   take := fun s h n => ⟨sinvOps.take s h.1 n, sameFile_trans h.2 ⟨rfl, rfl, rfl, rfl, rfl, rfl, rfl, rfl⟩⟩
   exec := fun f p s h hnr => ⟨sinvOps.exec f p s h.1 hnr, sameFile_trans h.2 (same_execPlan f p s hnr)⟩
 
-/-- states reachable by reads and sample-accurate seeks (whose page search does not fall back to a raw seek) -/
-inductive Reach (ph : Phys) (f : Int → M Int) (s : VF) : VF → Prop
-  | refl : Reach ph f s s
-  | read (t : VF) (n : Int) : Reach ph f s t → Reach ph f s ((readFloat ph n).run t).2
-  | seek (t : VF) (pos : Int) : Reach ph f s t → (∀ l c o r, planSeekPage ph t.tab pos ≠ .viaRaw l c o r) →
-      Reach ph f s ((pcmSeek ph f pos).run t).2
+/-- states reachable by any sequence of reads, sample-accurate seeks, page seeks and raw seeks -/
+inductive Reach (ph : Phys) (s : VF) : VF → Prop
+  | refl : Reach ph s s
+  | read (t : VF) (n : Int) : Reach ph s t → Reach ph s ((readFloat ph n).run t).2
+  | seek (t : VF) (pos : Int) : Reach ph s t → Reach ph s ((pcmSeek ph (rawSeek ph) pos).run t).2
+  | page (t : VF) (pos : Int) : Reach ph s t → Reach ph s ((pcmSeekPage ph (rawSeek ph) pos).run t).2
+  | raw (t : VF) (pos : Int) : Reach ph s t → Reach ph s ((rawSeek ph pos).run t).2
 
-theorem reach_inv {I : VF → Prop} (ops : InvOps I) (ph : Phys) (f : Int → M Int) (s t : VF) (h : Reach ph f s t) (hs : I s) : I t := by
+theorem reach_inv {I : VF → Prop} (ops : InvOps I) (ph : Phys) (s t : VF) (h : Reach ph s t) (hs : I s) : I t := by
   induction h with
   | refl => exact hs
   | read t n _ ih => exact pres_readFloat ops ph n t ih
-  | seek t pos _ hnr ih => exact inv_pcmSeek ops ph f pos t ih hnr
+  | seek t pos _ ih => exact inv_pcmSeek_raw ops ph pos t ih
+  | page t pos _ ih => exact inv_pcmSeekPage_raw ops ph pos t ih
+  | raw t pos _ ih => exact pres_rawSeek ops ph pos t ih
 
 /-- a seekable handle without stream state (just opened, or after any failed seek) is consistent -/
 theorem sinv_of_opened (s : VF) (hk : s.seekable = true) (hr : s.ready = OPENED) : SInv s := by
